@@ -332,10 +332,27 @@ func TestProp(t *testing.T) {
 			}
 		}
 	}
+	// G: the Kerberos Basic authenticator, which is handed the password in the clear
+	for rep := 0; rep < reps; rep++ {
+		for _, et := range []int32{18, 17, 23} {
+			for _, form := range []string{"user@REALM", `REALM\user`, "user"} {
+				for _, variant := range []string{"ok", "wrong-password", "no-kdc-for-realm", "realm-not-configured"} {
+					et, form, variant, rep := et, form, variant, rep
+					ck := fmt.Sprintf("basic/et=%d/%s/%s/%d", et, form, variant, rep)
+					w := worlds[si%nw]
+					si++
+					if !r.Mine(ck) {
+						continue
+					}
+					add(func() { basicScenario(r, w, ck, et, form, variant) })
+				}
+			}
+		}
+	}
 	// C: service side
 	for rep := 0; rep < reps; rep++ {
 		for _, et := range kcrypto.Etypes {
-			for _, def := range []string{"valid", "wrong-key", "expired", "auth-bitflip", "auth-other-key", "crealm", "skew", "replay", "tkt-truncated"} {
+			for _, def := range []string{"valid", "wrong-key", "expired", "auth-bitflip", "auth-other-key", "crealm", "skew", "replay", "tkt-truncated", "kvno-not-in-keytab", "etype-not-in-keytab", "keytab-principal-override-not-in-keytab"} {
 				et, def, rep := et, def, rep
 				ck := fmt.Sprintf("service/et=%d/%s/%d", et, def, rep)
 				if !r.Mine(ck) {
@@ -367,6 +384,8 @@ func TestProp(t *testing.T) {
 	r.Require("nonempty:marshal-after-decrypt/ticket-sequence", 6)
 	r.Require("nonempty:marshal-after-decrypt/TGS-REQ-with-additional-ticket", 6)
 	r.Require("nonempty:error:IsConfigured", 12)
+	r.Require("nonempty:error:BasicAuthenticator.Authenticate", 20)
+	r.Require("basic_auth_logins_succeeded", 4)
 	r.Require("session_keys_planted", 100)
 	r.Require("file_truncations", 500)
 	r.Require("password_changes_observed", 10)
@@ -585,6 +604,17 @@ func serviceScenario(t *testing.T, r *vh.Run, ck string, et int32, def string) {
 		m.Auth.CTime = now.Add(-time.Hour)
 	case "tkt-truncated":
 		m.TktCipherMut = func(b []byte) []byte { return b[:len(b)/2] }
+	case "kvno-not-in-keytab":
+		// the key look-up fails: the errors on that path have the whole keytab at hand
+		m.Kvno = kmsg.U32(7)
+	case "etype-not-in-keytab":
+		et2 := int32(17)
+		if et == 17 {
+			et2 = 18
+		}
+		k2 := pcommon.RefKey(rnd, et2)
+		secrets = append(secrets, leak.New("longterm-key:other-etype", k2, false))
+		m.ServiceKey = kmsg.Key{Type: et2, Value: k2}
 	}
 	req, err := m.Build()
 	if err != nil {
@@ -594,6 +624,9 @@ func serviceScenario(t *testing.T, r *vh.Run, ck string, et int32, def string) {
 	logger := log.New(logWriter{o, "log/service"}, "", 0)
 	pnc, pv, pw := vh.Guard(func() {
 		set := service.NewSettings(gkt, service.Logger(logger), service.DecodePAC(true))
+		if def == "keytab-principal-override-not-in-keytab" {
+			set = service.NewSettings(gkt, service.Logger(logger), service.DecodePAC(true), service.KeytabPrincipal("HTTP/elsewhere.test.gokrb5"))
+		}
 		n := 1
 		if def == "replay" {
 			n = 2
